@@ -8,12 +8,14 @@ Transcribes
     — restricted to what `parse_duration_to_milliseconds` can distinguish: a token is a number,
     an identifier, a lexer error, or "something else";
   * the delay branch of `SendParameters::execute`  (src/executable_content.rs): evaluation of the
-    event at send time, `delay_ms < 0` / delayed `#_internal` aborts, `Fsm::schedule`, the guard
-    bookkeeping `delayed_send.insert(sid, guard)` (a `HashMap::insert` on an existing key DROPS the
-    previous `Guard`, which cancels the earlier schedule) / `guard.ignore()`;
-  * the scheduled closure (`delayed_send.remove(sid)`, then `iop.send(..)`);
-  * `Cancel::execute`                              (src/executable_content.rs);
-  * `Fsm::schedule`, `Fsm.timer` dropped with the session thread (src/fsm.rs).
+    event at send time (payload containers copied by `Data::deep_clone`), `delay_ms < 0` / delayed
+    `#_internal` / a date `chrono` cannot represent abort with error.execution, `Fsm::schedule`, the
+    guard bookkeeping `delayed_send.entry(send_id).or_default().push((serial, guard))` for sends with
+    and without id (one guard per pending send, registered before the timer thread can look for it);
+  * the scheduled closure (takes its own `(serial, guard)` out of `delayed_send`, then `iop.send(..)`);
+  * `Cancel::execute` (`delayed_send.remove(Some(id))`: all guards of the id) (src/executable_content.rs);
+  * `Fsm::schedule`; `exitInterpreter` ends with `delayed_send.clear()`; `Fsm.timer` dropped with the
+    session thread (src/fsm.rs).
 
 Trusted, not transcribed: crate `timer` 0.2 (a callback never runs before its date; callbacks whose
 dates differ run in date order; dropping a `Guard` before the callback is popped prevents it;
@@ -290,17 +292,17 @@ structure Delivery (ε : Type) where
   /-- `true`: the scheduled closure ran on the timer thread; `false`: `delay_ms == 0`, sent directly -/
   viaTimer : Bool
   entry : Entry ε
-  /-- what the receiving session reads as the event: the closure's `Event` holds `Data` values whose
-  containers (`Data::Array`, `Data::Map`) are `Arc`s SHARED with the sender's datamodel
-  (`Data::clone` is shallow), so the reader sees them through the sender's data as they are now -/
+  /-- what the receiving session reads as the event: the `Data` values of the closure's `Event` are
+  deep copies (`Data::deep_clone` in `evaluate_params`, the namelist loop and `<content>`), they share
+  no cell with the sender's datamodel, so this is the event as it was built -/
   seen : ε
   deriving DecidableEq
 
 /-- one session's state as far as delayed sends are concerned -/
 structure Timer (δ ε : Type) where
   now : Nat
-  /-- `false` once the session thread has ended (its `Fsm` and with it `Fsm.timer` are dropped:
-  `TimerBase::drop` *sends* `Op::Stop` to the timer's threads) -/
+  /-- `false` once the session thread has ended (`exitInterpreter` has dropped every guard; the `Fsm`
+  and with it `Fsm.timer` are dropped: `TimerBase::drop` *sends* `Op::Stop` to the timer's threads) -/
   alive : Bool
   /-- `true` once the scheduler thread has taken `Op::Stop` out of its mailbox and returned -/
   stopped : Bool
@@ -309,42 +311,30 @@ structure Timer (δ ε : Type) where
   data : δ
   /-- the timer heap in pop order: sorted by (due, seq) -/
   pending : List (Entry ε)
-  /-- `GlobalData.delayed_send`: send id ↦ guard; a guard is named by the `seq` of its schedule -/
-  delayed : List (SendId × Nat)
+  /-- `GlobalData.delayed_send`: send id (`none` for a send without id) ↦ the guards of ALL pending
+  sends with that id; a guard is named by the serial number of its send = the `seq` of its schedule.
+  Flattened to a list of (key, serial). -/
+  delayed : List (Option SendId × Nat)
   /-- what was handed to the I/O processor, in order -/
   log : List (Delivery ε)
-  /-- `error.execution` raised by `<send>` (negative delay, delayed `#_internal`) -/
+  /-- `error.execution` raised by `<send>` (negative delay, delayed `#_internal`, a delay that leads
+  beyond the last date `chrono` can represent) -/
   errors : Nat
-  /-- how an event value built earlier reads given the datamodel as it is now: the identity for
-  values without containers; for a `<param location=…>` / namelist entry that is an array or a map
-  the elements are read from the (shared) cells of the sender's datamodel.  Constant. -/
-  deref : δ → ε → ε
   /-- milliseconds from now to the largest date `chrono` can represent (≈ 8.2·10^15; constant on the
   time scale of the model) -/
   headroom : Nat
-  /-- the session thread panicked inside `<send>` (see `Timer.send`) -/
-  crashed : Bool
 
-def Timer.initFull (deref : δ → ε → ε) (headroom : Nat) (d : δ) : Timer δ ε :=
+def Timer.initFull (headroom : Nat) (d : δ) : Timer δ ε :=
   { now := 0, alive := true, stopped := false, nextSeq := 0, data := d, pending := [], delayed := [], log := [],
-    errors := 0, deref := deref, headroom := headroom, crashed := false }
+    errors := 0, headroom := headroom }
 
 /-- `DateTime::<Utc>::MAX_UTC` (31 Dec 262142) minus September 2026, in ms, rounded down -/
 def chronoHeadroom : Nat := 8210000000000000
 
-def Timer.initWith (deref : δ → ε → ε) (d : δ) : Timer δ ε := Timer.initFull deref chronoHeadroom d
+def Timer.init (d : δ) : Timer δ ε := Timer.initFull chronoHeadroom d
 
-/-- a session whose events share nothing with its datamodel (scalar payloads only) -/
-def Timer.init (d : δ) : Timer δ ε := Timer.initWith (fun _ e => e) d
-
-def lookupId (id : SendId) : List (SendId × Nat) → Option Nat
-  | [] => none
-  | (k, v) :: r => if k = id then some v else lookupId id r
-
-def removeId (id : SendId) (m : List (SendId × Nat)) : List (SendId × Nat) := m.filter (fun p => p.1 ≠ id)
-
-/-- dropping the `Guard` of schedule `g`: that closure will be skipped -/
-def dropGuard (g : Nat) (p : List (Entry ε)) : List (Entry ε) := p.filter (fun e => e.seq ≠ g)
+/-- is a guard with serial `g` registered under `key`? -/
+def hasGuard (m : List (Option SendId × Nat)) (key : Option SendId) (g : Nat) : Bool := m.contains (key, g)
 
 /-- `BinaryHeap::push` seen through pop order: after every entry that is due no later -/
 def insertEntry (e : Entry ε) : List (Entry ε) → List (Entry ε)
@@ -359,45 +349,33 @@ def Timer.send (t : Timer δ ε) (id : Option SendId) (target : Str) (delay : In
   else if delay < 0 then { t with errors := t.errors + 1 }
   else if 0 < delay ∧ target = internalTarget then { t with errors := t.errors + 1 }
   else if t.headroom < delay.toNat then
-    -- `Fsm::schedule` → `timer.schedule_with_delay`: `Utc::now() + delay` leaves chrono's date range and
-    -- PANICS on the session thread; unwinding drops the `Fsm` (and its timer) like a termination
-    { t with alive := false, crashed := true }
+    -- `Fsm::schedule`: `Utc::now().checked_add_signed(delay)` is `None` ⇒ `Err`, nothing is scheduled,
+    -- `<send>` fails with error.execution like any other illegal delay
+    { t with errors := t.errors + 1 }
   else
     let ev := mk t.data
     let seq := t.nextSeq
     if delay = 0 then
       { t with nextSeq := seq + 1,
-               log := t.log ++ [⟨t.now, false, ⟨t.now, seq, id, target, ev⟩, t.deref t.data ev⟩] }
+               log := t.log ++ [⟨t.now, false, ⟨t.now, seq, id, target, ev⟩, ev⟩] }
     else
       let e : Entry ε := ⟨t.now + delay.toNat, seq, id, target, ev⟩
-      let pending := insertEntry e t.pending
-      match id with
-      | none => { t with nextSeq := seq + 1, pending := pending }     -- `g.ignore()`
-      | some sid =>
-        -- `delayed_send.insert(sid, g)`: the previous guard under `sid`, if any, is dropped
-        { t with nextSeq := seq + 1,
-                 pending := (match lookupId sid t.delayed with
-                             | some old => dropGuard old pending
-                             | none => pending),
-                 delayed := (sid, seq) :: removeId sid t.delayed }
+      -- `delayed_send.entry(send_id).or_default().push((serial, guard))`: with or without id, next to
+      -- whatever is registered under that id already
+      { t with nextSeq := seq + 1, pending := insertEntry e t.pending, delayed := (id, seq) :: t.delayed }
 
-/-- `Cancel::execute`: `delayed_send.remove(send_id)` drops the guard -/
+/-- `Cancel::execute`: `delayed_send.remove(Some(send_id))` drops every guard registered under the id:
+those closures will be skipped -/
 def Timer.cancel (t : Timer δ ε) (id : SendId) : Timer δ ε :=
   if t.alive = false then t
-  else match lookupId id t.delayed with
-    | none => t
-    | some g => { t with delayed := removeId id t.delayed, pending := dropGuard g t.pending }
+  else { t with delayed := t.delayed.filter (fun p => p.1 ≠ some id),
+                pending := t.pending.filter (fun e => !hasGuard t.delayed (some id) e.seq) }
 
-/-- the scheduled closure of entry `e` (already popped): `delayed_send.remove(sid)` — whatever guard
-is stored there is dropped — then the event is handed to the I/O processor -/
+/-- the scheduled closure of entry `e` (already popped): it takes its own guard (its serial number
+under its send id) out of `delayed_send` — no other — then the event is handed to the I/O processor -/
 def fireOne (t : Timer δ ε) (e : Entry ε) (rest : List (Entry ε)) : Timer δ ε :=
-  match e.sendid with
-  | none => { t with pending := rest, log := t.log ++ [⟨t.now, true, e, t.deref t.data e.event⟩] }
-  | some sid =>
-    match lookupId sid t.delayed with
-    | none => { t with pending := rest, log := t.log ++ [⟨t.now, true, e, t.deref t.data e.event⟩] }
-    | some g => { t with pending := dropGuard g rest, delayed := removeId sid t.delayed,
-                         log := t.log ++ [⟨t.now, true, e, t.deref t.data e.event⟩] }
+  { t with pending := rest, delayed := t.delayed.filter (fun p => p ≠ (e.sendid, e.seq)),
+           log := t.log ++ [⟨t.now, true, e, e.event⟩] }
 
 /-- the scheduler loop: pop while the first entry is due -/
 def fireLoop : Nat → Timer δ ε → Timer δ ε
@@ -412,9 +390,13 @@ It keeps running after the session thread has ended, until it has seen `Op::Stop
 def Timer.wake (t : Timer δ ε) : Timer δ ε :=
   if t.stopped = true then t else fireLoop t.pending.length t
 
-/-- the session thread ends: `Fsm` dropped ⇒ `timer::Timer` dropped ⇒ `Op::Stop` is on its way
-(through the communication thread) to the scheduler thread.  Nothing is discarded yet. -/
-def Timer.terminate (t : Timer δ ε) : Timer δ ε := { t with alive := false }
+/-- the session thread ends: the last statement of `exitInterpreter` is `delayed_send.clear()` — every
+registered guard is dropped, those closures will be skipped — then the `Fsm` is dropped ⇒
+`timer::Timer` dropped ⇒ `Op::Stop` is on its way (through the communication thread) to the
+scheduler thread. -/
+def Timer.terminate (t : Timer δ ε) : Timer δ ε :=
+  { t with alive := false, delayed := [],
+           pending := t.pending.filter (fun e => !t.delayed.any (fun p => p.2 = e.seq)) }
 
 /-- the scheduler thread drains its mailbox and finds `Op::Stop` (only ever sent by the drop):
 it returns, the heap is discarded -/
@@ -434,7 +416,7 @@ inductive Op (δ ε : Type) where
   | tick (t : Nat)
   /-- the timer thread runs -/
   | wake
-  /-- the session thread ends (the `Stop` message is sent) -/
+  /-- the session thread ends (all guards dropped, the `Stop` message is sent) -/
   | terminate
   /-- the `Stop` message reaches the scheduler thread -/
   | stop
@@ -454,28 +436,6 @@ def Timer.run (t : Timer δ ε) : List (Op δ ε) → Timer δ ε
 
 /-- an ideal timer: time passes to `t'` and the timer thread runs at once -/
 def Op.advance (t' : Nat) : List (Op δ ε) := [.tick t', .wake]
-
-/-- an ideal termination: the `Stop` message is processed before the timer thread does anything else -/
-def Op.terminateNow : List (Op δ ε) := [.terminate, .stop]
-
-/-- does executing `op` leave a pending entry with send id `sid?` alone?  (`wake` delivers it or
-leaves it; it never discards it.) -/
-def Op.harmlessFor (sid? : Option SendId) : Op δ ε → Bool
-  | .send id _ d _ => !(decide (0 < d) && id.isSome && id == sid?)
-  | .cancel id => !(sid? == some id)
-  | .terminate => false
-  | .stop => false
-  | _ => true
-
-/-- "pending send ids are distinct": no delayed `<send id=X>` executes while a send with id `X` is
-still pending.  Decidable on a concrete run. -/
-def idsFresh (t : Timer δ ε) : List (Op δ ε) → Bool
-  | [] => true
-  | op :: ops =>
-    (match op with
-     | .send (some sid) tg d _ =>
-       !(t.alive && decide (0 < d) && !(decide (tg = internalTarget)) && (lookupId sid t.delayed).isSome)
-     | _ => true) && idsFresh (t.step op) ops
 
 /-! ### Two sessions -/
 
